@@ -525,7 +525,7 @@ func init() {
 			// one P per worker: the observer's Gosched hands the processor straight
 			// to Serve's goroutine (the 16 workers are the parallelism)
 			oneP := []string{"GOMAXPROCS=1"}
-			return []drv.Part{
+			return append(helperParts(tier), []drv.Part{
 				{Name: "tree-stateless", Desc: fmt.Sprintf("payload forests of <= %d nodes, handlers without application state", n), Body: treeBody(withoutApp), MaxDev: n, CutDepth: 4, Budget: b, CrashIsolate: true, Env: oneP},
 				{Name: "tree-stateful", Desc: fmt.Sprintf("payload forests of <= %d nodes, handlers with tables (ibb, history, receipts, muc) and their application state", n), Body: treeBody(withApp), MaxDev: n, CutDepth: 4, Budget: b, CrashIsolate: true, Env: oneP},
 				{Name: "header", Desc: fmt.Sprintf("stanza types x from x to x id x namespace x handler configuration x spelling; payload trees of <= %d nodes (deviations = %d for the part + nodes)", m, rh), Body: headerBody(rh), MaxDev: rh + m, CutDepth: 5, Budget: b, CrashIsolate: true, Env: oneP},
@@ -534,7 +534,7 @@ func init() {
 				{Name: "malformed", Desc: fmt.Sprintf("truncations, inserted stream-level/ill-formed constructs, mismatched end tags (deviations = %d for the part)", rm), Body: malformedBody(rm), MaxDev: rm, CutDepth: 4, Budget: b, CrashIsolate: true, Env: oneP},
 				{Name: "size", Desc: fmt.Sprintf("large and deeply nested payloads (deviations = %d for the part)", rz), Body: sizeBody(scale, rz), MaxDev: rz, CutDepth: 4, Budget: b, CrashIsolate: true, Env: oneP},
 				{Name: "ibb-expect", Desc: fmt.Sprintf("sequences of 2 pool stanzas (both tiers: every execution found blocked leaves its goroutines behind) for an IBB listener whose application earlier gave up an Expect call for stream s1 of the peer (deviations = %d for the part)", rx), Body: seqBody(2, rx, "ibb", appIBBGaveUp), MaxDev: rx, CutDepth: 5, Budget: b, CrashIsolate: true, Env: oneP},
-			}
+			}...)
 		},
 	})
 }
